@@ -634,7 +634,18 @@ void HResumed(unsigned long long id) {
   if (!g.active) {
     return;
   }
-  hb::OnSwitch(static_cast<int>(id - g.base_id));
+  const int rel = static_cast<int>(id - g.base_id);
+  if (hb::Enabled()) {
+    yf::FiberBase* cur = Scheduler::Current();
+    if (cur != nullptr && rel >= 0 && rel < kMaxFibers && g.fibs[rel].ptr != cur) {
+      // first resume of this fiber: its (possibly recycled) stack has no history
+      hb::OnFiberStack(cur->_stack._allocation.start, cur->_stack._allocation.size);
+    }
+    if (cur != nullptr) {
+      FibOf(cur);
+    }
+  }
+  hb::OnSwitch(rel);
 }
 
 void HEvent(int kind, const void* obj, int order, unsigned long long before, unsigned long long after) {
@@ -1029,6 +1040,10 @@ void RunExecution(const Cell& cell) {
     }
   }
   hb::EndExecution();
+  if (g.shm != nullptr && !g.warmup) {
+    g.shm->hb_accesses = hb::Accesses();
+    g.shm->hb_sync = hb::SyncOps();
+  }
 }
 
 std::string PathToString(const Dec* p, std::uint32_t n) {
